@@ -117,6 +117,8 @@ def lemmas_lean(lemmas, imports=("HV.Consts",), cfg="realCfg"):
         env = {n: Val(s, n) for n, s in lm.vars}
         v = em.eval(ast.parse(lm.expr, mode="eval").body, env, SpecFn(lm.name, [], "Bool", "spec"), want="Bool")
         binders = " ".join(f"({n} : {em.sort(s)})" for n, s in lm.vars)
+        if "env." in str(v.v):
+            binders = "(env : Env) " + binders
         L.append(f"theorem {lm.name} {binders} :\n    {v.v} = true := {lm.proof}\n")
     L.append("end HV")
     return "\n".join(L) + "\n"
